@@ -230,6 +230,9 @@ pub struct Disk {
 }
 
 static ACTIVE: AtomicBool = AtomicBool::new(false);
+static RAND_ACTIVE: AtomicBool = AtomicBool::new(false);
+static mut RAND_STATE: u64 = 0;
+static mut RAND_CALLS: u64 = 0;
 static OWNER: AtomicI64 = AtomicI64::new(0);
 static mut DISK: Option<Box<Disk>> = None;
 static mut IN_HOOK: bool = false;
@@ -263,6 +266,14 @@ pub fn muted<R>(f: impl FnOnce() -> R) -> R {
 pub fn install(root: &str, seed: u64, snap_base: &str) {
 	let mut rng = Rng::new(seed);
 	let rand_stream = rng.fork(0x6765_7472);
+	// The seeded getrandom stream must be live before the first HashMap of this thread is
+	// created (std draws the thread's RandomState keys on first use) — including our own.
+	unsafe {
+		RAND_STATE = rand_stream.0;
+		RAND_CALLS = 0;
+	}
+	OWNER.store(gettid(), Ordering::SeqCst);
+	RAND_ACTIVE.store(true, Ordering::SeqCst);
 	let mut root = root.to_string();
 	if !root.ends_with('/') {
 		root.push('/');
@@ -306,6 +317,13 @@ pub fn install(root: &str, seed: u64, snap_base: &str) {
 
 pub fn uninstall() -> Option<Box<Disk>> {
 	ACTIVE.store(false, Ordering::SeqCst);
+	RAND_ACTIVE.store(false, Ordering::SeqCst);
+	#[allow(static_mut_refs)]
+	unsafe {
+		if let Some(d) = DISK.as_mut() {
+			d.counters.getrandom_calls = RAND_CALLS;
+		}
+	}
 	OWNER.store(0, Ordering::SeqCst);
 	#[allow(static_mut_refs)]
 	unsafe {
@@ -835,7 +853,7 @@ unsafe fn open_impl(path: *const c_char, flags: c_int, mode: mode_t) -> c_int {
 				}
 			}
 		}
-		d.record(kind, &rel, flags as u64, 0, fd as i64);
+		d.record(kind, &rel, flags as u64, 0, if fd >= 0 { 0 } else { -(saved as i64) });
 		d.maybe_snapshot(kind, &rel, false);
 		if d.armed && kind.is_crash_point() {
 			d.step_crash_points += 1;
@@ -1280,11 +1298,12 @@ pub unsafe extern "C" fn rename(old: *const c_char, new: *const c_char) -> c_int
 
 #[no_mangle]
 pub unsafe extern "C" fn getrandom(buf: *mut c_void, len: size_t, flags: c_uint) -> ssize_t {
-	if ACTIVE.load(Ordering::Relaxed) && OWNER.load(Ordering::Relaxed) == gettid() {
-		let d = disk();
-		d.counters.getrandom_calls += 1;
+	if RAND_ACTIVE.load(Ordering::Relaxed) && OWNER.load(Ordering::Relaxed) == gettid() {
+		RAND_CALLS += 1;
 		let s = std::slice::from_raw_parts_mut(buf as *mut u8, len);
-		d.rand_stream.fill(s);
+		let mut r = Rng(RAND_STATE);
+		r.fill(s);
+		RAND_STATE = r.0;
 		return len as ssize_t
 	}
 	libc::syscall(libc::SYS_getrandom, buf, len, flags) as ssize_t
